@@ -148,6 +148,12 @@ func coreHeader(envs []*Env) string {
 	// regexp oracle table
 	pats := append(append([]string{}, rePool...), strPool...)
 	subj := append([]string{}, strPool...)
+	// subjects built at run time by one concatenation (`# + "b"`, `S + S2`) are in the table too
+	for _, a := range strPool {
+		for _, c := range strPool {
+			subj = append(subj, a+c)
+		}
+	}
 	b.WriteString("Definition re_tbl : list (string * string * option bool) := [\n")
 	first := true
 	seen := map[string]bool{}
